@@ -315,7 +315,8 @@ def write_evidence(ctx: Ctx, proof: dict, violations: int):
         "obligations": proof["obligations"],
         "discharged": proof["discharged"],
         "checker_cmd": proof["checker_cmd"],
-        "trusted_base": TRUSTED_BASE,
+        "trusted_base": TRUSTED_BASE + ([f"extractors run on this tree before the build (Python ast -> Lean terms in lean/Panoptica/Generated): {', '.join(obligations_for(ctx.pid).get('extractors', []))}"]
+                                         if obligations_for(ctx.pid).get("extractors") else []),
         "theorems": proof["theorems"],
         "axioms": proof["axioms"],
         "source_tie": proof.get("tie", "correspondence (model vs implementation on the same inputs)"),
